@@ -305,6 +305,7 @@ pub fn parse_index(d: &[u8]) -> Option<Parsed> {
     p.trailer.copy_from_slice(&d[end..]);
     let mut pos = 12usize;
     let mut prev: Vec<u8> = Vec::new();
+    let mut strips: Vec<(usize, usize)> = Vec::new();
     for _ in 0..n {
         let start = pos;
         if pos + 62 > end {
@@ -340,6 +341,7 @@ pub fn parse_index(d: &[u8]) -> Option<Parsed> {
             if strip > prev.len() {
                 return None;
             }
+            strips.push((strip, prev.len()));
             let nul = d.get(pos..end)?.iter().position(|b| *b == 0)? + pos;
             let mut pth = prev[..prev.len() - strip].to_vec();
             pth.extend_from_slice(&d[pos..nul]);
@@ -483,6 +485,18 @@ pub fn parse_index(d: &[u8]) -> Option<Parsed> {
         }
         if !ok || idx != p.entries.len() {
             return None; // git trusts the table; a wrong one is not git-written
+        }
+        if version == 4 {
+            // git invalidates the previous name at the start of every block but the first: the whole
+            // previous name is stripped there. Anything else is not git-written (serial and threaded
+            // readers, git's included, would disagree on it).
+            let mut idx = 0usize;
+            for (bi, (_, c)) in t.iter().enumerate() {
+                if bi > 0 && strips[idx].0 != strips[idx].1 {
+                    return None;
+                }
+                idx += *c as usize;
+            }
         }
         p.ieot_ok = true;
         p.ieot_blocks = t.len();
